@@ -51,6 +51,12 @@ def gen_cases(ctx):
         if i % 6 == 1 and gen.num_ops(inst) <= 7:
             # a search that branches by copying the dispatcher instead of reset + replay
             c["branch"] = "deepcopy"
+        elif i % 6 == 2:
+            # a search that orders the candidates of each node with a (tie-breaking) rule first
+            c["heuristic_order"] = True
+        elif i % 6 == 3:
+            # the dispatcher was used for a warm start by a rule solver before the search
+            c["warm_start"] = True
         yield c
     # dense flexible instances (most operations have alternative machines): many histories reach
     # the same job progress with different clocks
@@ -122,9 +128,20 @@ def walk_by_copy(ctx, inst, filter_spec, stats):
     return rec(run.d)
 
 
-def walk(ctx, inst, filter_spec, stats):
+def walk(ctx, inst, filter_spec, stats, heuristic_order=False, warm_start=False):
     run = Run(inst, filter_spec)
     d, r = run.d, run.r
+    rule = None
+    if heuristic_order:
+        from job_shop_lib.dispatching.rules import (score_based_rule_with_tie_breaker,
+                                                    shortest_processing_time_score,
+                                                    most_operations_remaining_score)
+        rule = score_based_rule_with_tie_breaker([shortest_processing_time_score,
+                                                  most_operations_remaining_score])
+    if warm_start:
+        from job_shop_lib.dispatching.rules import DispatchingRuleSolver
+        DispatchingRuleSolver("most_work_remaining", "first",
+                              ["dominated_operations", "non_immediate_operations"]).solve(run.instance, d)
     memo = {}
     path = []
 
@@ -149,6 +166,8 @@ def walk(ctx, inst, filter_spec, stats):
         d.reset()
         for o, m in path:
             d.dispatch(run.op(o), m)
+        if rule is not None:
+            rule(d)       # the search looks at the rule's favourite first
         avail = [o.operation_id for o in d.available_operations()]
         ready = r.ready()
         if len(avail) < len(ready):
@@ -186,7 +205,12 @@ def run_case(ctx, case):
             best = walk_by_copy(ctx, inst, spec, stats)
             ctx.count("trees_walked_by_copying_the_dispatcher")
         else:
-            best = walk(ctx, inst, spec, stats)
+            best = walk(ctx, inst, spec, stats, heuristic_order=bool(case.get("heuristic_order")),
+                        warm_start=bool(case.get("warm_start")))
+            if case.get("heuristic_order"):
+                ctx.count("trees_walked_in_rule_order")
+            if case.get("warm_start"):
+                ctx.count("trees_walked_after_a_solver_warm_start")
         ctx.count("filter_obtained_as_" + spec["form"])
     except TooBig:
         ctx.count("instances_abandoned_node_budget")
@@ -202,7 +226,9 @@ def run_case(ctx, case):
         ctx.violation("c08_filtered_tree_misses_optimum",
                       {"filtered_best": best if best != float("inf") else "no complete history",
                        "optimum": opt, "filter_form": case.get("form", "function"),
-                       "branching": case.get("branch", "reset+replay")})
+                       "branching": case.get("branch", "reset+replay"),
+                       "heuristic_order": bool(case.get("heuristic_order")),
+                       "warm_start": bool(case.get("warm_start"))})
     if case.get("unfiltered_twin") and gen.num_ops(inst) <= 9:
         s2 = {"leaves": 0, "nodes": 0, "pruned": 0}
         try:
